@@ -66,10 +66,12 @@ def gen_case(rnd, tier: str, i: Any) -> Dict[str, Any]:
     n_steps = rnd.choice([0, 1, 2, 3])
     files = {}
     for r in range(n_ranks):
-        p = gen_sim.random_params(rnd, tier, rank=r, first_step=first_step, n_steps=n_steps, p_sync=rnd.choice([0.0, 0.1]),
+        p = gen_sim.random_params(rnd, tier, rank=r, first_step=first_step, n_steps=n_steps, p_sync=rnd.choice([0.0, 0.1]), exotic_launch=rnd.random() < 0.3,
                                   ops_per_step=rnd.choice([(2, 5), (3, 8), (6, 12)]))
         tr = gen_sim.gen_trace(rnd, **p)
         gen_sim.drop_events(rnd, tr, p_launch=rnd.choice([0, 0, 0.15]), p_kernel=rnd.choice([0, 0, 0.1]))
+        if rnd.random() < 0.3:
+            gen_sim.add_device_spans(rnd, tr)        # GPU-side annotations / profiler ranges on the kernels' streams
         files[f"rank{r}.json"] = tr
     # thresholds are completed in run_case from the actual gaps (they depend on the loaded view)
     return {"files": files, "cfg": {"rank_sel": rnd.random(), "stream_sel": rnd.random(), "thr_sel": rnd.random(), "thr_mode": rnd.choice(["gap", "gap", "gap+1", "0", "1", "30", "1e9"]),
